@@ -349,3 +349,261 @@ Section Shapes.
     cbn. rewrite <- sublist_spec. split; [intros [= H]; exact H | intros ->; reflexivity].
   Qed.
 End Shapes.
+
+(* ------------------------------------------------------------------ vertex order and the edge part *)
+(* every edge of ea occurs in ea', possibly in the other direction *)
+Definition edge_sub (ea ea' : list seg) : Prop :=
+  forall e, In e ea -> In e ea' \/ In (swap_sg e) ea'.
+Definition edge_equiv (ea ea' : list seg) : Prop := edge_sub ea ea' /\ edge_sub ea' ea.
+
+Lemma swap_swap e : swap_sg (swap_sg e) = e.
+Proof. destruct e; reflexivity. Qed.
+
+Lemma hit_swap_r a b : hit a (swap_sg b) = hit a b.
+Proof. rewrite hit_sym, hit_swap. apply hit_sym. Qed.
+
+Lemma brute_mono ea ea' eb eb' : edge_sub ea ea' -> edge_sub eb eb' ->
+  brute hit ea eb = true -> brute hit ea' eb' = true.
+Proof.
+  intros HA HB. apply brute_ext.
+  - intros a Ha. destruct (HA a Ha) as [H | H].
+    + exists a. auto.
+    + exists (swap_sg a). split; [exact H|]. intros b. symmetry. apply hit_swap.
+  - intros b Hb. destruct (HB b Hb) as [H | H].
+    + exists b. auto.
+    + exists (swap_sg b). split; [exact H|]. intros a. symmetry. apply hit_swap_r.
+Qed.
+
+Theorem brute_equiv ea ea' eb eb' : edge_equiv ea ea' -> edge_equiv eb eb' ->
+  brute hit ea eb = brute hit ea' eb'.
+Proof.
+  intros [A1 A2] [B1 B2]. apply eq_true_iff_eq. split; apply brute_mono; assumption.
+Qed.
+
+Lemma edge_equiv_refl ea : edge_equiv ea ea.
+Proof. split; intros e H; auto. Qed.
+
+Lemma edge_equiv_sym ea eb : edge_equiv ea eb -> edge_equiv eb ea.
+Proof. intros [A B]. split; assumption. Qed.
+
+Lemma edge_sub_trans a b c : edge_sub a b -> edge_sub b c -> edge_sub a c.
+Proof.
+  intros H1 H2 e He. destruct (H1 e He) as [H | H].
+  - apply H2. exact H.
+  - destruct (H2 _ H) as [H' | H']; [right; exact H' | left; rewrite swap_swap in H'; exact H'].
+Qed.
+
+Lemma edge_equiv_trans a b c : edge_equiv a b -> edge_equiv b c -> edge_equiv a c.
+Proof. intros [A1 A2] [B1 B2]. split; eapply edge_sub_trans; eauto. Qed.
+
+Lemma edge_equiv_app a a' b b' : edge_equiv a a' -> edge_equiv b b' -> edge_equiv (a ++ b) (a' ++ b').
+Proof.
+  intros [A1 A2] [B1 B2]. split; intros e He; apply in_app_iff in He as [He | He];
+    rewrite !in_app_iff;
+    [destruct (A1 e He) | destruct (B1 e He) | destruct (A2 e He) | destruct (B2 e He)]; auto.
+Qed.
+
+(* edges of a vertex list *)
+Lemma ring_edges_cons x y t : ring_edges (x :: y :: t) = (x, y) :: ring_edges (y :: t).
+Proof. reflexivity. Qed.
+
+Lemma ring_edges_snoc l z : l <> [] ->
+  ring_edges (l ++ [z]) = ring_edges l ++ [(last l z, z)].
+Proof.
+  induction l as [|x l IH]; intros N; [contradiction|].
+  destruct l as [|y t]; [reflexivity|].
+  change ((x :: y :: t) ++ [z]) with (x :: y :: (t ++ [z])).
+  rewrite !ring_edges_cons.
+  change (y :: t ++ [z]) with ((y :: t) ++ [z]). rewrite IH by discriminate. reflexivity.
+Qed.
+
+(* reversing a vertex list reverses every edge *)
+Lemma ring_edges_rev_in l : forall e, In e (ring_edges (rev l)) <-> In (swap_sg e) (ring_edges l).
+Proof.
+  induction l as [|x l IH]; intros e; [cbn; tauto|].
+  destruct l as [|y t]; [cbn; tauto|].
+  rewrite ring_edges_cons.
+  change (rev (x :: y :: t)) with (rev (y :: t) ++ [x]).
+  rewrite ring_edges_snoc by (cbn; intros H; apply app_eq_nil in H as [_ H]; discriminate).
+  rewrite in_app_iff, IH.
+  assert (L : last (rev (y :: t)) x = y) by (cbn; apply last_last).
+  rewrite L. cbn [In]. split.
+  - intros [H | [H | []]]; [right; exact H | left; subst e; reflexivity].
+  - intros [H | H]; [right; left; destruct e; cbn in H; injection H as -> ->; reflexivity | left; exact H].
+Qed.
+
+Lemma ring_edges_rev l : edge_equiv (ring_edges (rev l)) (ring_edges l).
+Proof.
+  split; intros e He.
+  - right. apply ring_edges_rev_in. exact He.
+  - right. apply ring_edges_rev_in. rewrite swap_swap. exact He.
+Qed.
+
+(* a closed ring, and the same ring started one vertex later *)
+Definition closed_ring (c : list pt) : Prop := exists x l, c = x :: l ++ [x].
+Definition rot_closed (c : list pt) : list pt :=
+  match c with x :: y :: t => y :: t ++ [y] | _ => c end.
+
+Lemma rot_closed_closed c : closed_ring c -> closed_ring (rot_closed c).
+Proof.
+  intros [x [l ->]]. destruct l as [|y t].
+  - exists x, []. reflexivity.
+  - exists y, (t ++ [x]). reflexivity.
+Qed.
+
+Lemma rev_closed c : closed_ring c -> closed_ring (rev c).
+Proof.
+  intros [x [l ->]]. exists x, (rev l).
+  change (x :: l ++ [x]) with ([x] ++ l ++ [x]). rewrite !rev_app_distr. reflexivity.
+Qed.
+
+Lemma ring_edges_rot c : closed_ring c -> edge_equiv (ring_edges (rot_closed c)) (ring_edges c).
+Proof.
+  intros [x [l ->]]. destruct l as [|y t]; [apply edge_equiv_refl|].
+  change (rot_closed (x :: (y :: t) ++ [x])) with ((y :: t ++ [x]) ++ [y]).
+  change (x :: (y :: t) ++ [x]) with (x :: y :: (t ++ [x])).
+  rewrite ring_edges_cons, ring_edges_snoc by discriminate.
+  assert (L : last (y :: t ++ [x]) y = x).
+  { change (y :: t ++ [x]) with ((y :: t) ++ [x]). apply last_last. }
+  rewrite L.
+  split; intros e He.
+  - left. apply in_app_iff in He as [He | [<- | []]]; [right; exact He | left; reflexivity].
+  - left. destruct He as [<- | He]; apply in_app_iff; [right; left; reflexivity | left; exact He].
+Qed.
+
+Lemma close_ring_closed c : closed_ring c -> close_ring c = c.
+Proof.
+  intros [x [l ->]]. unfold close_ring.
+  change (x :: l ++ [x]) with ((x :: l) ++ [x]). rewrite last_last.
+  cbn. rewrite pt_eqb_refl. reflexivity.
+Qed.
+
+Lemma norm_outline_edges h raw :
+  edge_equiv (ring_edges (norm_outline h raw)) (ring_edges (close_ring raw)).
+Proof.
+  unfold norm_outline. destruct (negb _); [apply ring_edges_rev | apply edge_equiv_refl].
+Qed.
+
+Lemma all_edges_poly o hs d :
+  all_edges (Poly o hs d) = ring_edges o ++ concat (map ring_edges (map (fun h => rev (hole_coords h)) hs)).
+Proof. reflexivity. Qed.
+
+(* the edge part depends only on the undirected edge sets of the two shapes *)
+Theorem edge_part_equiv a a' b b' :
+  edge_equiv (all_edges a) (all_edges a') -> edge_equiv (all_edges b) (all_edges b') ->
+  edge_part a b = edge_part a' b' /\
+  edges_cross (edge_rings a) (edge_rings b) = edges_cross (edge_rings a') (edge_rings b').
+Proof.
+  intros Ha Hb. rewrite !edges_cross_shapes. unfold edge_part.
+  rewrite (brute_equiv _ _ _ _ Ha Hb). auto.
+Qed.
+
+(* reversal / rotation (any number of steps) of the outline given to the GeoPolygon constructor *)
+Inductive reorder : list pt -> list pt -> Prop :=
+| ro_refl c : reorder c c
+| ro_rev c c' : reorder c c' -> reorder c (rev c')
+| ro_rot c c' : reorder c c' -> reorder c (rot_closed c').
+
+Lemma reorder_edges c c' : closed_ring c -> reorder c c' ->
+  closed_ring c' /\ edge_equiv (ring_edges c') (ring_edges c).
+Proof.
+  intros Hc R. induction R as [c | c c' R IH | c c' R IH].
+  - split; [exact Hc | apply edge_equiv_refl].
+  - destruct (IH Hc) as [C E]. split; [apply rev_closed; exact C|].
+    eapply edge_equiv_trans; [apply ring_edges_rev | exact E].
+  - destruct (IH Hc) as [C E]. split; [apply rot_closed_closed; exact C|].
+    eapply edge_equiv_trans; [apply ring_edges_rot; exact C | exact E].
+Qed.
+
+Theorem edge_part_order_free c c' hs d b :
+  closed_ring c -> reorder c c' ->
+  edges_cross (edge_rings (mk_poly c' hs d)) (edge_rings b) =
+    edges_cross (edge_rings (mk_poly c hs d)) (edge_rings b) /\
+  edges_cross (edge_rings b) (edge_rings (mk_poly c' hs d)) =
+    edges_cross (edge_rings b) (edge_rings (mk_poly c hs d)).
+Proof.
+  intros Hc R. destruct (reorder_edges c c' Hc R) as [Hc' E].
+  assert (EE : edge_equiv (all_edges (mk_poly c' hs d)) (all_edges (mk_poly c hs d))).
+  { unfold mk_poly. rewrite !all_edges_poly. apply edge_equiv_app; [|apply edge_equiv_refl].
+    eapply edge_equiv_trans; [apply norm_outline_edges|].
+    eapply edge_equiv_trans; [|apply edge_equiv_sym, norm_outline_edges].
+    rewrite !close_ring_closed by assumption. exact E. }
+  split.
+  - apply (edge_part_equiv _ _ b b EE (edge_equiv_refl _)).
+  - apply (edge_part_equiv b b _ _ (edge_equiv_refl _) EE).
+Qed.
+
+(* ------------------------------------------------------------------ refutations (finding D5) *)
+(* p lies on the closed segment e (exact) *)
+Definition on_segment (p : pt) (e : seg) : Prop :=
+  cross (fst e) (snd e) p = 0 /\
+  Z.min (px (fst e)) (px (snd e)) <= px p <= Z.max (px (fst e)) (px (snd e)) /\
+  Z.min (py (fst e)) (py (snd e)) <= py p <= Z.max (py (fst e)) (py (snd e)).
+
+Definition sq (x0 y0 x1 y1 : Z) : list pt := [(x0, y0); (x1, y0); (x1, y1); (x0, y1)].
+
+(* a point on the boundary of a polygon belongs to both closed sets, yet "no intersection",
+   in both argument orders *)
+Theorem intersects_boundary_point_refuted :
+  exists o p e, In e (all_edges (mk_poly o [] None)) /\ on_segment p e /\
+    intersects_shape (-180) (mk_poly o [] None) (Pt p None) = Ok false /\
+    intersects_shape (-180) (Pt p None) (mk_poly o [] None) = Ok false.
+Proof.
+  exists (sq 0 0 8 8), (8, 4), ((8, 0), (8, 8)).
+  split; [vm_compute; tauto|]. split; [vm_compute; repeat split; discriminate|].
+  split; vm_compute; reflexivity.
+Qed.
+
+(* a point strictly inside a segment of a linestring: "no intersection" *)
+Theorem intersects_segment_interior_point_refuted :
+  exists vs p e, In e (all_edges (Ln vs None)) /\ on_segment p e /\ p <> fst e /\ p <> snd e /\
+    intersects_shape (-180) (Ln vs None) (Pt p None) = Ok false /\
+    intersects_shape (-180) (Pt p None) (Ln vs None) = Ok false.
+Proof.
+  exists [(1, 1); (5, 3)], (3, 2), ((1, 1), (5, 3)).
+  split; [vm_compute; tauto|]. split; [vm_compute; repeat split; discriminate|].
+  repeat split; try discriminate; vm_compute; reflexivity.
+Qed.
+
+(* a polygon with a hole "contains" a polygon that covers the hole: q is a point of B (strictly
+   inside it) that is not a point of A *)
+Theorem contains_around_hole_refuted :
+  exists a b q, valid a /\ valid b /\
+    contains_shape (-180) a b = Ok true /\
+    contains_coordinate (-180) b q = true /\ contains_coordinate (-180) a q = false.
+Proof.
+  exists (mk_poly (sq 0 0 8 8) [mk_hpoly (sq 2 2 6 6)] None), (mk_poly (sq 1 1 7 7) [] None), (4, 4).
+  split; [vm_compute; lia|]. split; [vm_compute; lia|].
+  repeat split; vm_compute; reflexivity.
+Qed.
+
+(* ------------------------------------------------------------------ the pre-repair code, refuted
+   (shows that the theorems above are sensitive to exactly the repaired lines) *)
+Definition diamond0 : list seg :=
+  [((0, 1), (1, 0)); ((1, 0), (0, -1)); ((0, -1), (-1, 0)); ((-1, 0), (0, 1))].
+Definition diamond_up : list seg :=
+  [((0, 1), (1, 2)); ((1, 2), (0, 3)); ((0, 3), (-1, 2)); ((-1, 2), (0, 1))].
+
+(* D2: without "starts before ends at equal latitude" the answer depends on the argument order *)
+Theorem sweep_pre_D2_refuted :
+  exists ea eb, brute hit ea eb = true /\
+    sweep_gen hit false false ea eb = Ok false /\ sweep_gen hit false false eb ea = Ok true.
+Proof. exists diamond0, diamond_up. repeat split; vm_compute; reflexivity. Qed.
+
+(* D3: with set.remove an out-and-back path raises KeyError *)
+Theorem sweep_pre_D3_refuted :
+  exists ea eb, sweep_gen hit true true ea eb = Err KeyError.
+Proof.
+  exists [((5, 5), (6, 6)); ((6, 6), (5, 5))], [((0, 0), (1, 0)); ((1, 0), (1, 1))].
+  vm_compute. reflexivity.
+Qed.
+
+(* D4: through `shape in self` the spatial test read the time bounds *)
+Theorem time_free_pre_D4_refuted :
+  exists a b d1 d2,
+    intersects_shape_gen (-180) false (with_dt d1 a) (with_dt d2 b) <>
+    intersects_shape_gen (-180) false a b.
+Proof.
+  exists (mk_poly (sq 0 0 8 8) [] None), (Pt (4, 4) None), (Some (mkiv 0 10)), (Some (mkiv 5 15)).
+  vm_compute. discriminate.
+Qed.
